@@ -225,16 +225,18 @@ impl Cqueue {
     // when the select coroutine is done, check the panic status
     // if it's panicked, re throw the panic data
     fn check_panic(&self, id: usize) {
-        if self.is_panicking.load(Ordering::Relaxed) {
-            return;
-        }
-
         use generator::Error;
         // take the handle out first: the lock must not be held (and poisoned) while the panic is re-raised
         let handle = self.selectors.lock().unwrap()[id]
             .take()
             .expect("join handler not set");
-        match handle.join() {
+        // always wait for the select coroutine: it uses the cqueue until it
+        // has really terminated, only the re-raise happens at most once
+        let ret = handle.join();
+        if self.is_panicking.load(Ordering::Relaxed) {
+            return;
+        }
+        match ret {
             Ok(_) => {}
             Err(panic) => {
                 if let Some(err) = panic.downcast_ref::<Error>() {
@@ -311,6 +313,11 @@ impl Drop for Cqueue {
     // this would cancel all unfinished select coroutines
     // and wait until all of them return back
     fn drop(&mut self) {
+        // is the owner unwinding already? decide it now: once a coroutine has
+        // parked in the drain below it may go on on another thread, and the
+        // answer of thread::panicking() belongs to the thread
+        let unwinding = std::thread::panicking();
+
         // first cancel all the select coroutines if they are running
         self.selectors
             .lock()
@@ -336,17 +343,28 @@ impl Drop for Cqueue {
         if let Some(c) = cancel {
             c.disable_cancel();
         }
+        // the panic of a select coroutine is re-raised only after all of them
+        // are finished, and never on top of an owner that is unwinding already
+        let mut panic_data = None;
         loop {
-            match self.poll(None) {
-                Ok(_) => {}
-                Err(_e @ PollError::Finished) => break,
-                _ => unreachable!("cqueue drop unreachable"),
+            match panic::catch_unwind(panic::AssertUnwindSafe(|| self.poll(None))) {
+                Ok(Ok(_)) => {}
+                Ok(Err(PollError::Finished)) => break,
+                Ok(Err(_)) => unreachable!("cqueue drop unreachable"),
+                Err(p) => {
+                    panic_data.get_or_insert(p);
+                }
             }
         }
         if let Some(c) = cancel {
             c.enable_cancel();
         }
         // we are sure that all the coroutines are finished
+        if let Some(p) = panic_data {
+            if !unwinding {
+                panic::resume_unwind(p);
+            }
+        }
     }
 }
 
